@@ -9,6 +9,7 @@
   to end: verify, list-heads = pre-run refs, mirror clone + fsck + every pre-run reachable object.
 -/
 import Frrs.Pipeline
+import Frrs.Backup
 import Frrs.Extracted
 namespace Frrs.C13
 open Frrs.Pipe
@@ -57,5 +58,22 @@ theorem directory_form (hasExt : Bool) : bundleLocation (.given true hasExt) = .
   simp [bundleLocation]
 theorem extensionless_is_directory : bundleLocation (.given false false) = .insideGivenDirectory := rfl
 theorem file_form : bundleLocation (.given false true) = .exactlyGivenFile := rfl
+
+/-! ### where the bundle is written (backup.rs) -/
+
+/-- without `--backup-path` the bundle goes under `<git dir>/filter-repo/` -/
+theorem backup_default_location (isDir : Bool) : backupDest none isDir = .defaultDir := rfl
+
+/-- an existing directory is always used as a directory, whatever its name looks like (`releases.d/`) -/
+theorem backup_existing_directory (p : Bytes) : backupDest (some p) true = .inDir p := by simp [backupDest]
+
+/-- a path that is no existing directory is the bundle file itself exactly when its last component has an extension;
+    otherwise it names a directory to be created -/
+theorem backup_file_form (p : Bytes) :
+    backupDest (some p) false = (if (pathExtension p).isSome then .file p else .inDir p) := by
+  cases h : pathExtension p <;> simp [backupDest, h]
+
+example : backupDest (some b!"out/my.bundle") false = .file b!"out/my.bundle" ∧ backupDest (some b!"bk dir") false = .inDir b!"bk dir" ∧
+    backupDest (some b!".hidden") false = .inDir b!".hidden" ∧ backupDest (some b!"v1.2/") false = .file b!"v1.2/" := by decide +kernel
 
 end Frrs.C13
